@@ -196,7 +196,7 @@ def gen_ops(rng, cfg, nops, invalid_rate=0.0, blocks=True, close=True, style=Non
                     g = g + ln + max(0, rng.choice([0, 1, 1, 2, e - 1, e, e + 1, pf]))
             total = off
             if bad:
-                kind = rng.choice(["past", "d0", "len", "dorder", "gorder", "dbeyond", "overlap"])
+                kind = rng.choice(["past", "d0", "len", "dorder", "gorder", "dbeyond", "overlap", "overlap-late", "overlap-late"])
                 if kind == "past" and cur > 0:
                     G = [x - (G[0] - cur) - rng.choice([1, cur]) for x in G]
                     G = [max(0, x) for x in G]
@@ -213,6 +213,16 @@ def gen_ops(rng, cfg, nops, invalid_rate=0.0, blocks=True, close=True, style=Non
                     G = G if len(G) == len(D) else G + [G[-1] + total + 5]
                 elif kind == "overlap" and nb > 1:
                     G[1] = G[0] + (D[1] - D[0]) - 1
+                elif kind == "overlap-late" and nb > 2:
+                    # a large early gap hides a later block that starts before its predecessor ends
+                    G[1] = G[0] + (D[1] - D[0]) + 50 + 3 * pf
+                    for q in range(2, nb):
+                        G[q] = G[q - 1] + (D[q] - D[q - 1]) + 1
+                    q = rng.randrange(2, nb)
+                    if D[q] - D[q - 1] >= 2:
+                        G[q] = G[q - 1] + (D[q] - D[q - 1]) - 1
+                        for z in range(q + 1, nb):
+                            G[z] = G[z - 1] + (D[z] - D[z - 1]) + 1
             ops.append(("b", total, tag, G, D))
             ok = (len(G) == len(D) and G[0] >= cur and D[0] == 0 and all(b > a for a, b in zip(D, D[1:]))
                   and all(b > a for a, b in zip(G, G[1:])) and D[-1] < total
